@@ -598,12 +598,10 @@ public:
 	bool SerializeValue(T& value)
 	{
 		CheckEnd();
-		if (mMsgPackReader->ReadValue(value))
-		{
-			++mIndex;
-			return true;
-		}
-		return false;
+		// The element is consumed in any case (when not loaded, it was skipped according to the policy)
+		const bool result = mMsgPackReader->ReadValue(value);
+		++mIndex;
+		return result;
 	}
 
 	/// <summary>
@@ -625,9 +623,11 @@ public:
 	std::optional<CMsgPackReadArrayScope<TReader>> OpenArrayScope(size_t)
 	{
 		CheckEnd();
-		if (size_t sz = 0; mMsgPackReader->ReadArraySize(sz))
-		{
-			++mIndex;
+		// The element is consumed in any case (when not loaded, it was skipped according to the policy)
+		size_t sz = 0;
+		const bool result = mMsgPackReader->ReadArraySize(sz);
+		++mIndex;
+		if (result) {
 			return std::make_optional<CMsgPackReadArrayScope<TReader>>(sz, mMsgPackReader, GetContext(), this);
 		}
 		return std::nullopt;
@@ -636,17 +636,23 @@ public:
 	std::optional<CMsgPackReadObjectScope<TReader>> OpenObjectScope(size_t)
 	{
 		CheckEnd();
-		if (size_t sz = 0; mMsgPackReader->ReadMapSize(sz))
-		{
-			++mIndex;
+		// The element is consumed in any case (when not loaded, it was skipped according to the policy)
+		size_t sz = 0;
+		const bool result = mMsgPackReader->ReadMapSize(sz);
+		++mIndex;
+		if (result) {
 			return std::make_optional<CMsgPackReadObjectScope<TReader>>(sz, mMsgPackReader, GetContext(), this);
 		}
 		return std::nullopt;
 	}
 
-	[[nodiscard]] std::optional<CMsgPackReadBinaryScope<TReader>> OpenBinaryScope(size_t) const
+	[[nodiscard]] std::optional<CMsgPackReadBinaryScope<TReader>> OpenBinaryScope(size_t)
 	{
-		if (size_t sz = 0; mMsgPackReader->ReadBinarySize(sz)) {
+		CheckEnd();
+		size_t sz = 0;
+		const bool result = mMsgPackReader->ReadBinarySize(sz);
+		++mIndex;
+		if (result) {
 			return std::make_optional<CMsgPackReadBinaryScope<TReader>>(sz, mMsgPackReader, GetContext());
 		}
 		return std::nullopt;
